@@ -10,4 +10,5 @@ make -C killat >/dev/null
 LSMC_TAGS=vfs ./tools/build.sh /repo "$(pwd)/harness" "$(pwd)/bin/lsmc-vfs"
 ./tools/build_c17.sh /repo "$(pwd)/bin/lsmc-c17"
 ./tools/build_c12.sh /repo "$(pwd)/bin/lsmc-c12"
+here="$(pwd)"; ( cd /repo && go build -o "$here/bin/litestream-cli" ./cmd/litestream )
 echo "setup ok"
